@@ -1360,6 +1360,22 @@ class Authenticated(BaseClientHandler):
 
     ##################################################################
     #
+    async def _recheck_pending_expunges(self, cmd: IMAPClientCommand) -> None:
+        """
+        FETCH, STORE and SEARCH check for pending EXPUNGE's before they queue
+        on the mailbox. An EXPUNGE may have run while the command waited in
+        that queue, so check again once the command has been let through: a
+        UID command gets the EXPUNGE's now, a non-UID command, whose message
+        numbers are no longer what the client meant, gets a NO.
+        """
+        if self.pending_expunges():
+            if cmd.uid_command:
+                await self.send_pending_notifications()
+            else:
+                raise No("There are pending EXPUNGEs.")
+
+    ##################################################################
+    #
     async def do_search(self, cmd: IMAPClientCommand) -> None:
         """
         Search... NOTE: Can not send untagged EXPUNGE messages during this
@@ -1394,6 +1410,7 @@ class Authenticated(BaseClientHandler):
                 raise No("There are pending untagged responses")
 
         async with cmd.ready_and_okay(self.mbox):
+            await self._recheck_pending_expunges(cmd)
             try:
                 results = await self.mbox.search(
                     cmd.search_key, cmd.uid_command, cmd.timeout_cm
@@ -1467,6 +1484,7 @@ class Authenticated(BaseClientHandler):
 
         try:
             async with cmd.ready_and_okay(self.mbox):
+                await self._recheck_pending_expunges(cmd)
                 msg_set = (
                     sorted(cmd.msg_set_as_set) if cmd.msg_set_as_set else []
                 )
@@ -1491,9 +1509,10 @@ class Authenticated(BaseClientHandler):
         # The FETCH may have caused some message flags to change, and they may
         # not have been in the FETCH responses we already sent (and other
         # FETCH's may have done the same) so make sure we send out all pending
-        # notifications.
+        # notifications. (But no EXPUNGE's during a non-UID FETCH.)
         #
-        await self.send_pending_notifications()
+        if cmd.uid_command or not self.pending_expunges():
+            await self.send_pending_notifications()
 
     ##################################################################
     #
@@ -1562,8 +1581,8 @@ class Authenticated(BaseClientHandler):
                 # done on our behalf predate this STORE. Send them now,
                 # sent after our response they would report stale flags.
                 #
-                if not self.pending_expunges():
-                    await self.send_pending_notifications()
+                await self._recheck_pending_expunges(cmd)
+                await self.send_pending_notifications()
                 msg_set = (
                     sorted(cmd.msg_set_as_set) if cmd.msg_set_as_set else []
                 )
